@@ -42,7 +42,7 @@ META = {
                   'no failed operation on that output).  Struct parameters also under OVERLAPPING operations of several threads '
                   '(struct_members_agree_overlapped: a generated read_/write_<struct> of the member-wise layout or a generated member method '
                   'of the combined layout with any assignments of other threads to the struct or to members before each of its steps, any '
-                  'values seen by cache reads outside updateLock; the per-thread guard counter of fix 8a147a3 is what it rests on - '
+                  'values seen by cache reads outside updateLock; the per-thread guard counter of fix 3675468 is what it rests on - '
                   'shared_guard_loses_member_update and shared_counter_update_lost are the proved counterexamples for one counter shared by '
                   'all threads).  Models tied to frappy/extparams.py, params.Limit, modulebase.__init_subclass__/checkLimits '
                   'and mixins.py by a correspondence run on real modules behind a real dispatcher (values, update stream, pending-error '
